@@ -122,6 +122,7 @@ class Kernel(object):
         self.abort_reason = None
         self.deadlock = None
         self.event_hooks = []
+        self.post_hooks = []
         self.counters = {}
         self.active = True
         self.main = None
@@ -348,6 +349,12 @@ class Kernel(object):
                 nxt = self._choose(run, cur)
                 if nxt is not cur:
                     self._switch_to(nxt)
+
+    def post_event(self, kind, detail=""):
+        """The operation announced by the last event() of this task has just
+        taken effect (no scheduling, no log entry)."""
+        for h in self.post_hooks:
+            h(self, self.current, kind, detail)
 
     def yield_point(self, kind="yield"):
         """A pure pre-emption point (no OS-visible effect)."""
